@@ -5,6 +5,9 @@ import HappyProofs.C11.Quorum
 `voted`   every (voter, term, candidate) for which a node's `voted_for` was ever seen set
 `leaders` every (term, node) at the moment a node became leader
 `created` every log a leader had right after it appended a client command
+`seen`    every (node, term, log) a node was left in by a handler
+`llogs`   every (term, node, log) at the moment a node became leader
+`cands`   every (term, node, log) at the moment a node started an election
 
 `(gstep v g a).s = (step v g.s a).1` by definition, so statements about `GSt` runs are
 statements about what the driver executes. -/
@@ -15,6 +18,9 @@ structure GSt where
   voted : List (Nat × Nat × Nat) := []
   leaders : List (Nat × Nat) := []
   created : List (List Entry) := []
+  seen : List (Nat × Nat × List Entry) := []
+  llogs : List (Nat × Nat × List Entry) := []
+  cands : List (Nat × Nat × List Entry) := []
 
 def voteDiff (x' : Node) (i : Nat) : List (Nat × Nat × Nat) :=
   match x'.votedFor with
@@ -23,6 +29,13 @@ def voteDiff (x' : Node) (i : Nat) : List (Nat × Nat × Nat) :=
 
 def leadDiff (x x' : Node) (i : Nat) : List (Nat × Nat) :=
   if x'.role = .leader ∧ x.role ≠ .leader then [(x'.term, i)] else []
+
+def llogDiff (x x' : Node) (i : Nat) : List (Nat × Nat × List Entry) :=
+  if x'.role = .leader ∧ x.role ≠ .leader then [(x'.term, i, x'.log)] else []
+
+/-- only `_start_election` raises the term without stepping down -/
+def candDiff (x x' : Node) (i : Nat) : List (Nat × Nat × List Entry) :=
+  if x.term < x'.term ∧ x'.role ≠ .follower then [(x'.term, i, x'.log)] else []
 
 def createdDiff (s : St) : Act → List (List Entry)
   | .submit i _ c => if i < s.n ∧ (s.nodes i).role = .leader then [(s.nodes i).log ++ [⟨(s.nodes i).term, c⟩]] else []
@@ -46,7 +59,10 @@ def gstep (v : Variant) (g : GSt) (a : Act) : GSt :=
     { s := s',
       voted := voteDiff (s'.nodes i) i ++ g.voted,
       leaders := leadDiff (g.s.nodes i) (s'.nodes i) i ++ g.leaders,
-      created := createdDiff g.s a ++ g.created }
+      created := createdDiff g.s a ++ g.created,
+      seen := (i, (s'.nodes i).term, (s'.nodes i).log) :: g.seen,
+      llogs := llogDiff (g.s.nodes i) (s'.nodes i) i ++ g.llogs,
+      cands := candDiff (g.s.nodes i) (s'.nodes i) i ++ g.cands }
   | none => { g with s := s' }
 
 def grun (v : Variant) (g : GSt) : List Act → GSt
